@@ -19,8 +19,12 @@ RULE = ("Hypothesis draws sample sets over d 2..4(5) modes with 1..4(5) index va
         "orders 1 and 2; noise in {0,1e-10,1e-3,0.1} or rel_noise through the class; the `seed` argument is a duck-typed generator "
         "whose normal() returns values we control (uniform/clipped normal/+-3/all +3, modulus <= 3) or an int. Oracle = independent "
         "recomputation (math.fsum) of the mean, conditional means and pair terms, the noise-free core pattern built from it and "
-        "the rigorous multilinear noise majorant. Functional variant: points in a box (uniform, on the boundary, duplicated), n 2..6(8), "
-        "lamb 10^[-8,1], e in {None, default, 1e-8, 1e-4, 1e-2}; oracle = augmented least-squares ridge solve + own Chebyshev basis. "
+        "the rigorous multilinear noise majorant. Functional variant: points in a box (uniform, on the boundary, duplicated, few distinct abscissae), n 2..6(8), "
+        "sample count m free in 1..30(60) or placed at n-1, n, n+1, 2n, 3n+1; lamb default / 10^p for p in -8..1, 3, 6 / exactly 0.0 "
+        "and -0.0 / tiny 1e-10, 1e-12, 1e-20, 1e-300, spelled as float, np.float64, np.float32 or int (lamb=None is rejected by the "
+        "unchanged library and not passed); e in {None, default, 1e-8, 1e-4, 1e-2}; oracle = independent fit of EVERY dimension "
+        "(augmented least-squares ridge solve on the own Chebyshev design matrix; for lamb < 1e-8 on exactly rank-deficient designs "
+        "the orthogonal projection = fitted values at all training points) + own Chebyshev basis for the interpolant. "
         "Non-trivial = (sparse data or duplicates) or r > 2 or order 2; functional: m >= 2 and non-constant y. Distinct by SHA-1. "
         "order2_wide: order 2 over d = 5, 6, 7 (mode sizes 2..3(4), at most one mode of size 1) and d = 10 (8, 9, 11 thorough; mode "
         "size 2), i.e. 11..56 add_many summands so that the periodic roundings of the summation schedule are reached (also exactly "
@@ -38,12 +42,22 @@ TOLERANCES = ("f0: 2(m+4) eps mean|y|; f1/f2: the same for the conditional mean 
               "f-tolerances on structural ones, K = 32(d+sum r+max n); order 2 (no bond rank equal to the cap r): Frobenius error <= "
               "pre-truncation bound (order-1 majorant + per pair 1e-10 absolute skeleton cut + 64 n eps ||f2||) + add_many bound "
               "1e-10 ||S|| + floor_eigh(R,d,||S||) + cancel as derived in C02 (floor_eigh = 8 sqrt(eps R)(d-1)||S||); ridge coefficients: "
-              "first-order perturbation bound 8 (dG ||c|| + db)/(lamb + lambda_min(A^T A)); truncated functional cores: e||A|| + floor_eigh")
+              "first-order perturbation bound 8 (dG ||c|| + db)/(lamb + lambda_min(A^T A)), used when lamb >= 1e-8 or 4 dG <= lamb + lambda_min "
+              "(then cond(A^T A + lamb I) <= 1/(256 eps): gelsy keeps full rank); lamb < 1e-8 on a design with q < n distinct abscissae "
+              "whose q non-zero singular values lie within a factor 100: fitted values at the training points within PRED_F s_max "
+              "(dG ||c_minnorm|| + db)/(s_q^2 - dG) + lamb ||y - mean||/s_q^2 per dimension, PRED_F = 1e4 stating the gain with which the "
+              "rounding-sized null-space components that gelsy keeps (noise eigenvalue just above its cut eps lambda_max) couple back "
+              "into the range part (<= dG/(eps lambda_max) ~ 1e3; observed <= 2 without the factor); truncated functional cores: "
+              "e||A|| + floor_eigh")
 ASSUMPTIONS = ["d >= 2, r >= 2 (cores_1 writes column 1 of every core), noise >= 0, integer index values",
                "int seeds: |standard normal draw| <= 40 (NumPy's ziggurat cannot exceed ~14 in binary64)",
                "additive reproduction is claimed for balanced full grids only (every grid point equally often)",
-               "functional variant: lamb >= 1e-8 (condition number of the normal equations far below gelsy's 1/eps rank cut), "
-               "points inside the box, box offset ratio max(|a|,|b|)/(b-a) <= ~20, n >= 2",
+               "functional variant: lamb >= 0 (None is rejected by the library), points inside the box, box offset ratio "
+               "max(|a|,|b|)/(b-a) <= ~20, n >= 2; the coefficients are compared with the independent solve where they are unique up to "
+               "rounding (lamb >= 1e-8, or the normal equations far from gelsy's 1/eps rank cut: 4 dG <= lamb + lambda_min); for lamb < 1e-8 on "
+               "exactly rank-deficient designs with a gap only the fitted values at the training points are claimed (the coefficients "
+               "are legitimately non-unique); for lamb < 1e-8 on numerically rank-deficient designs without a gap (a handful of cases) "
+               "only the consistency of cores, ANOVA_func.coeffs and interpolant is claimed",
                "the eigh floor of truncate (C02) is a stated tolerance of the order-2 route, not a finding",
                "only_near=True of ANOVA.cores is outside the property text and not exercised",
                "data arrays of a narrower real or an integer dtype denote the (exactly representable) doubles of their elements; "
@@ -53,6 +67,7 @@ ASSUMPTIONS = ["d >= 2, r >= 2 (cores_1 writes column 1 of every core), noise >=
 
 B_DUCK = 3.0
 B_INT = 40.0
+PRED_F = 1.0e4           # functional variant, rank-deficient designs without regularisation: see prop_func (regime `pred`)
 E_ADD = 1.0e-10          # default accuracy of add_many (order 2) and of matrix_skeleton in _second_order_2_tt
 
 
@@ -762,10 +777,14 @@ def func_cases(draw, tier):
     d = draw(st.integers(2, 5 if big else 4))
     n = draw(st.integers(2, 8 if big else 6))
     box = draw(st.sampled_from(["unit", "scalar", "list", "list"]))
-    case = {"d": d, "n": n, "m": draw(st.integers(1, 60 if big else 30)), "box": box, "xseed": draw(gen.seeds),
-            "pts": draw(st.sampled_from(["uniform", "uniform", "boundary", "dups", "few_values"])),
+    # sample count: free, or placed relative to the mode size n (below / equal / just above / a few multiples)
+    mk = draw(st.sampled_from(["free", "free", "free", "n-1", "n", "n", "n+1", "2n", "3n+1"]))
+    m = {"free": draw(st.integers(1, 60 if big else 30)), "n-1": n - 1, "n": n, "n+1": n + 1, "2n": 2 * n, "3n+1": 3 * n + 1}[mk]
+    case = {"d": d, "n": n, "m": m, "mkind": mk, "box": box, "xseed": draw(gen.seeds),
+            "pts": draw(st.sampled_from(["uniform", "uniform", "uniform", "boundary", "dups", "few_values"])),
             "yfam": draw(st.sampled_from(["gauss", "gauss", "cheb_additive", "smallint", "const", "zero", "offset"])),
-            "lamb10": draw(st.sampled_from([None, -8, -7, -6, -4, -3, -2, -1, 0, 1])),
+            "lamb10": draw(st.sampled_from(LAMB_CHOICES)),
+            "lsp": draw(st.sampled_from(["float", "float", "np64", "int", "np32"])),
             "e": draw(st.sampled_from([None, None, "default", 1e-8, 1e-4, 1e-2])),
             "scale10": draw(st.sampled_from([0, 0, 3, -3])), "ntest": draw(st.integers(1, 6)), "as_list": draw(st.integers(0, 3)) == 0,
             "xdt": draw(st.sampled_from(XDT)), "ydt": draw(st.sampled_from(YDT))}
@@ -775,6 +794,34 @@ def func_cases(draw, tier):
     case["a"] = [draw(gen.reals(-5, 5)) for _ in range(k)]
     case["w"] = [draw(st.sampled_from([0.5, 1.0, 2.0, 3.7, 10.0])) for _ in range(k)]
     return case
+
+
+# regularisation values: None = the default (argument not passed); an int p = 10^p; "zero" / "negzero" = exactly 0.0 / -0.0
+# (no regularisation: the boundary of lamb >= 0); tiny values (far below the rounding of A^T A) and large ones.  lamb=None is
+# not in the domain: the unchanged library rejects it (TypeError in ANOVA_func.coeffs).
+LAMB_CHOICES = [None, -8, -7, -6, -4, -3, -2, -1, 0, 1, "zero", "zero", "zero", "zero", "negzero", -300, -20, -12, -10, 3, 6]
+
+
+def lamb_of(case):
+    """(value as a float, argument handed to the library or None for `not passed`).  Spellings of the same number: Python float,
+    np.float64, np.float32 (only values that binary32 holds exactly: 0 and 10^p, 0 <= p <= 6), Python int (integer values)."""
+    l10 = case["lamb10"]
+    if l10 is None:
+        return 1e-7, None
+    if l10 == "zero":
+        v = 0.0
+    elif l10 == "negzero":
+        v = -0.0
+    else:
+        v = 10.0 ** l10
+    sp = case.get("lsp", "float")
+    if sp == "np64":
+        return float(v), np.float64(v)
+    if sp == "int" and v == int(v) and not (v == 0 and math.copysign(1.0, v) < 0):
+        return float(v), int(v)
+    if sp == "np32" and float(np.float32(v)) == v:
+        return float(v), np.float32(v)
+    return float(v), float(v)
 
 
 def cheb_vander(t, n):
@@ -855,15 +902,21 @@ def prop_func(case, ctx):
         y = np.zeros(m)
     y = y * 10.0 ** case["scale10"]
     yarg, y = spell_y(y, ydt)                        # from here on y = float64 array of the values actually passed
-    lamb = 1e-7 if case["lamb10"] is None else 10.0 ** case["lamb10"]
+    lamb, larg = lamb_of(case)
+    if case["lamb10"] is None:
+        ll = "lamb=default"
+    elif isinstance(case["lamb10"], str):
+        ll = "lamb=0" if case["lamb10"] == "zero" else "lamb=-0"
+    else:
+        ll = f"lamb=1e{case['lamb10']}"
     ctx.label("box:" + box, "pts:" + case["pts"], "y:" + fam, f"d={d}", f"n={n}", f"e={case['e']}", "X_trn:" + xdt, "y_trn:" + ydt,
-              "lamb=default" if case["lamb10"] is None else f"lamb=1e{case['lamb10']}", "m<n" if m < n else "m>=n")
+              ll, "lamb_arg:" + type(larg).__name__, "m<n" if m < n else ("m==n" if m == n else "m>n"), "m:" + case.get("mkind", "free"))
     ctx.nontrivial(m >= 2 and float(np.ptp(y)) > 0)
 
     # ---- library calls
     kw = {}
-    if case["lamb10"] is not None:
-        kw["lamb"] = lamb
+    if larg is not None:
+        kw["lamb"] = larg
     if box == "unit":
         pos = (Xarg, yarg, n)
         gkw = {}
@@ -878,7 +931,13 @@ def prop_func(case, ctx):
     ctx.check(why is None, f"anova_func(e=None): result is not a well-formed TT-tensor of shape [n]*d: {why}")
     F0 = dense(A0)
 
-    # ---- independent ridge fit
+    # ---- independent fit of EVERY dimension.  Three regimes per dimension (stated in ASSUMPTIONS):
+    #   coef : the ridge system is well posed (lamb >= 1e-8, or 4 dG <= lamb + lambda_min(A^T A), which also covers lamb = 0 on
+    #          full-column-rank designs): the coefficients are unique and compared with the reference solve;
+    #   pred : lamb < 1e-8 and the design is exactly rank deficient with a gap (q < n distinct abscissae, the q non-zero singular
+    #          values within a factor 100): the coefficients are legitimately non-unique (any least-squares solution up to
+    #          rounding-sized null components), but the fitted values at the training points are unique (orthogonal projection);
+    #   self : otherwise (numerically rank-deficient without a gap): no reference, only the internal consistency of the results.
     y0 = _mean(y)
     t0 = 2 * (m + 4) * EPS * _mean(np.abs(y))
     yc = y - y0
@@ -887,22 +946,62 @@ def prop_func(case, ctx):
     dt = 8 * EPS * (1 + kap)
     p2 = np.arange(n, dtype=float) ** 2
     tT = p2 * dt + 8 * n * EPS                       # deviation of a basis value between two correct evaluations
-    c0 = y0
-    tc0 = t0
-    cs, tcs = [], []
+    dims = []
     for k in range(d):
         V = cheb_vander(t[:, k], n)
-        aug = np.vstack([V, math.sqrt(lamb) * np.eye(n)])
-        c = np.linalg.lstsq(aug, np.concatenate([yc, np.zeros(n)]), rcond=None)[0]
         nA = float(np.linalg.norm(V))
         dA = float(np.linalg.norm(tT)) * math.sqrt(m)
         dG = 2 * nA * dA + 2 * m * EPS * nA ** 2 + 32 * n * EPS * (nA ** 2 + lamb)
         db = dA * nyc + 2 * m * EPS * nA * nyc + nA * math.sqrt(m) * (t0 + 2 * EPS * float(np.max(np.abs(yc), initial=0.0)))
         lmin = float(np.linalg.eigvalsh(V.T @ V)[0])
         mu = lamb + max(0.0, lmin - dG)
-        tc = 8 * (dG * float(np.linalg.norm(c)) + db) / mu
-        cs.append(c[1:]); tcs.append(tc)
-        c0 += c[0]; tc0 += tc + 4 * EPS * (abs(c0) + abs(c[0]))
+        D = {"V": V, "regime": "self"}
+        if lamb >= 1e-8 or 4 * dG <= mu:
+            aug = np.vstack([V, math.sqrt(lamb) * np.eye(n)])
+            c = np.linalg.lstsq(aug, np.concatenate([yc, np.zeros(n)]), rcond=None)[0]
+            D.update(regime="coef", c=c, tc=8 * (dG * float(np.linalg.norm(c)) + db) / mu)
+        else:
+            q = min(len(np.unique(X[:, k])), n)
+            U, s, Wt = np.linalg.svd(V, full_matrices=False)
+            if q < n and s[q - 1] >= 1e-2 * s[0] and (q == len(s) or s[q] <= 1e-10 * s[0]) and s[q - 1] ** 2 >= 64 * dG:
+                proj = U[:, :q].T @ yc
+                cmn = float(np.linalg.norm(proj / s[:q]))
+                # fitted values: first-order bound of the range part (as above, restricted to the range), times the stated
+                # factor PRED_F for the coupling with the rounding-sized null part, plus the shrinkage of a tiny lamb > 0
+                tp = PRED_F * s[0] * (dG * cmn + db) / (s[q - 1] ** 2 - dG) + lamb / s[q - 1] ** 2 * nyc
+                D.update(regime="pred", fit=U[:, :q] @ proj, tp=tp)
+        dims.append(D)
+    regimes = [D["regime"] for D in dims]
+    mode = "coef" if all(g == "coef" for g in regimes) else ("pred" if "self" not in regimes else "self")
+    ctx.label("oracle:" + mode)
+    if lamb == 0:
+        ctx.label("lamb0:" + mode, "lamb0:" + ("m<n" if m < n else ("m==n" if m == n else "m>n")) + ":" + mode)
+
+    # ---- the class spelling: every well-posed dimension against its reference solve
+    C = ctx.lib(teneva.ANOVA_func, *pos, **kw)
+    cf = ctx.lib(lambda: C.coeffs)
+    ctx.check(isinstance(cf, list) and len(cf) == d + 1, "ANOVA_func.coeffs is not [c0, c_1, .., c_d]")
+    ctx.check(np.ndim(cf[0]) == 0 and math.isfinite(float(cf[0])), "ANOVA_func.coeffs[0] is not a finite number", got=repr(cf[0]))
+    for k in range(d):
+        got = np.asarray(cf[k + 1], dtype=float)
+        ctx.check(got.shape == (n - 1,) and bool(np.all(np.isfinite(got))), "ANOVA_func.coeffs[k] is not a finite vector of n - 1 "
+                  "coefficients", k=k, got=got, lamb=lamb)
+        if dims[k]["regime"] == "coef":
+            ctx.check(float(np.linalg.norm(got - dims[k]["c"][1:])) <= dims[k]["tc"],
+                      "ANOVA_func.coeffs[k] differs from the independent ridge solve", k=k, got=got, ref=dims[k]["c"][1:],
+                      tol=dims[k]["tc"], lamb=lamb, m=m)
+    if mode == "coef":
+        c0 = y0
+        tc0 = t0
+        for D in dims:
+            c0 += D["c"][0]; tc0 += D["tc"] + 4 * EPS * (abs(c0) + abs(D["c"][0]))
+        cs = [D["c"][1:] for D in dims]; tcs = [D["tc"] for D in dims]
+        ctx.check(abs(float(cf[0]) - c0) <= tc0, "ANOVA_func.coeffs[0] is not the fitted constant", got=float(cf[0]), ref=c0, tol=tc0, lamb=lamb)
+        src = "independent fit"
+    else:                    # the coefficients the class reports are the reference of the cores (no tolerance of their own)
+        c0 = float(cf[0]); tc0 = 0.0
+        cs = [np.asarray(v, dtype=float) for v in cf[1:]]; tcs = [0.0] * d
+        src = "ANOVA_func.coeffs"
 
     def powtol(v):
         v = abs(v)
@@ -911,7 +1010,7 @@ def prop_func(case, ctx):
     # ---- the coefficient tensor: c0 at the origin, c_kp on the axes, exact zeros elsewhere
     origin = (0,) * d
     ctx.check(abs(F0[origin] - c0) <= tc0 + powtol(c0), "anova_func(e=None): entry [0..0] is not the fitted constant (mean + sum of the "
-              "zero-order ridge coefficients)", got=float(F0[origin]), ref=c0, tol=tc0 + powtol(c0), lamb=lamb)
+              "zero-order ridge coefficients)", got=float(F0[origin]), ref=c0, tol=tc0 + powtol(c0), lamb=lamb, ref_from=src)
     on_axis = np.zeros([n] * d, dtype=bool)
     on_axis[origin] = True
     for k in range(d):
@@ -921,35 +1020,47 @@ def prop_func(case, ctx):
             got = float(F0[idx])
             ctx.check(abs(got - cs[k][p - 1]) <= tcs[k] + powtol(cs[k][p - 1]),
                       "anova_func(e=None): an axis entry is not the ridge coefficient of the one-dimensional Chebyshev fit",
-                      k=k, p=p, got=got, ref=float(cs[k][p - 1]), tol=tcs[k], lamb=lamb)
+                      k=k, p=p, got=got, ref=float(cs[k][p - 1]), tol=tcs[k], lamb=lamb, ref_from=src)
     ctx.check(bool(np.all(F0[~on_axis] == 0.0)), "anova_func(e=None): a coefficient off the coordinate axes is non-zero (cross term)",
               worst=float(np.max(np.abs(F0[~on_axis]), initial=0.0)))
 
-    # the class spelling
-    C = ctx.lib(teneva.ANOVA_func, *pos, **kw)
-    cf = ctx.lib(lambda: C.coeffs)
-    ctx.check(isinstance(cf, list) and len(cf) == d + 1, "ANOVA_func.coeffs is not [c0, c_1, .., c_d]")
-    ctx.check(abs(float(cf[0]) - c0) <= tc0, "ANOVA_func.coeffs[0] is not the fitted constant", got=float(cf[0]), ref=c0, tol=tc0)
-    for k in range(d):
-        got = np.asarray(cf[k + 1], dtype=float)
-        ctx.check(got.shape == (n - 1,) and float(np.linalg.norm(got - cs[k])) <= tcs[k],
-                  "ANOVA_func.coeffs[k] differs from the independent ridge solve", k=k, got=got, ref=cs[k], tol=tcs[k], lamb=lamb)
-
     # ---- the interpolant at the training points and at fresh points of the box
+    Kev = oracle.K_of(A0) + 16 * (d + 44)
+
+    def interpolant(tt):
+        """c0 + sum_k sum_p c_kp T_p(t_k) with its tolerance, and the basis tables."""
+        Vt = [cheb_vander(tt[:, k], n) for k in range(d)]
+        refv = np.full(len(tt), c0)
+        maj = np.full(len(tt), abs(c0))
+        tolv = np.full(len(tt), tc0)
+        for k in range(d):
+            refv = refv + Vt[k][:, 1:] @ cs[k]
+            maj = maj + np.abs(Vt[k][:, 1:]) @ np.abs(cs[k])
+            tolv = tolv + tcs[k] * np.linalg.norm(Vt[k][:, 1:], axis=1) + float(np.abs(cs[k]) @ tT[1:])
+        return refv, tolv + Kev * EPS * maj, Vt
+
     Xtarg, Xt = spell_X(np.vstack([X[:min(m, 8)], points(case["ntest"])]))
     tt = np.clip((2 * Xt - a - b) / (b - a), -1.0, 1.0)
-    Vt = [cheb_vander(tt[:, k], n) for k in range(d)]
-    refv = np.full(len(Xt), c0)
-    maj = np.full(len(Xt), abs(c0))
-    tolv = np.full(len(Xt), tc0)
-    for k in range(d):
-        refv = refv + Vt[k][:, 1:] @ cs[k]
-        maj = maj + np.abs(Vt[k][:, 1:]) @ np.abs(cs[k])
-        tolv = tolv + tcs[k] * np.linalg.norm(Vt[k][:, 1:], axis=1) + float(np.abs(cs[k]) @ tT[1:])
-    Kev = oracle.K_of(A0) + 16 * (d + 44)
-    tolv = tolv + Kev * EPS * maj
+    refv, tolv, Vt = interpolant(tt)
     got = np.asarray(ctx.lib(teneva.func_get, Xtarg, A0, **gkw), dtype=float)
-    cmp_table(ctx, got, refv, tolv, "func_get(X, anova_func(e=None)) differs from c0 + sum_k sum_p c_kp T_p(t_k)", lamb=lamb)
+    cmp_table(ctx, got, refv, tolv, "func_get(X, anova_func(e=None)) differs from c0 + sum_k sum_p c_kp T_p(t_k)", lamb=lamb, ref_from=src)
+
+    # ---- no unique coefficients, but unique fitted values: the interpolant at ALL training points is the mean plus the sum
+    # over the dimensions of the least-squares fitted values (orthogonal projection of y - mean onto the span of the basis
+    # columns at the abscissae of that dimension; the ridge fit where the dimension is well posed)
+    if mode == "pred":
+        own, tolo, _ = interpolant(t)
+        fit = np.full(m, y0)
+        tolf = np.full(m, t0) + tolo
+        for D in dims:
+            if D["regime"] == "coef":
+                fit = fit + D["V"] @ D["c"]; tolf = tolf + D["tc"] * np.linalg.norm(D["V"], axis=1)
+            else:
+                fit = fit + D["fit"]; tolf = tolf + D["tp"]
+        gtrn = np.asarray(ctx.lib(teneva.func_get, Xarg, A0, **gkw), dtype=float)
+        cmp_table(ctx, gtrn, fit, tolf + 8 * d * EPS * np.abs(fit), "func_get(X_trn, anova_func(e=None)): the fitted values at the training "
+                  "points are not the mean plus the sum of the per-dimension least-squares fitted values (rank-deficient design, "
+                  "lamb < 1e-8)", lamb=lamb, regimes=regimes, m=m, n=n)
 
     # ---- truncated cores
     e = case["e"]
